@@ -3,6 +3,7 @@ package main
 import (
 	"bytes"
 	"encoding/binary"
+	"encoding/hex"
 	"errors"
 	"fmt"
 	"io"
@@ -533,6 +534,19 @@ func runC08(ctx *Ctx) error {
 	for i := 0; i < ctx.N(300, 3000); i++ {
 		add("random", r.Bytes(r.Intn(64)), r.Intn(2) == 0)
 	}
+	// a plausible size followed by arbitrary bits: decodes to literals and matches that reach
+	// anywhere in the 2048-byte window, including the part before the start of the data
+	// (the reader's initial ring position was wrong there: fix: commit for C08)
+	for i := 0; i < ctx.N(150, 1500); i++ {
+		size := 20 + r.Intn(600)
+		body := r.Bytes(30 + r.Intn(300))
+		hdr := make([]byte, 4)
+		binary.LittleEndian.PutUint32(hdr, uint32(size))
+		add("random-body", append(hdr, body...), false)
+	}
+	if far, err := hex.DecodeString("b4000000040544b8a71d430523b2e7df26985c8762dd88cdf41e0bdbeee138507c10467a463d8dad4c4d78"); err == nil {
+		add("far-back-reference", far, false)
+	}
 	for vi, s := range valid {
 		if !ctx.Thorough() && vi >= 6 {
 			break
@@ -607,6 +621,9 @@ func runC08(ctx *Ctx) error {
 		maxReads := 600
 		rr := lzRead([][]byte{s}, crc, sizes, maxReads)
 		cs := map[string]interface{}{"family": fam[i], "stream_hex": shortHex(s), "crc": crc, "read_sizes": sizes, "declared_size": declared}
+		if len(s) <= 4096 {
+			cs["stream_hex"] = hexs(s) // complete, so that the replay file is self-contained
+		}
 		res.Count(fam[i])
 		res.Eval(fmt.Sprint(crc)+string(s), fam[i] != "valid")
 		if i%211 == 3 {
@@ -659,4 +676,3 @@ func runC08(ctx *Ctx) error {
 	res.Extra["close_nil_verdicts_checked"] = len(verdicts)
 	return nil
 }
-
